@@ -191,12 +191,13 @@ theorem chrome_sumOther {r : Run} {G N B : Group} (sh : ChromeShape r G N B) (su
   simp only [List.foldl_cons, List.foldl_nil]
   split <;> split <;> omega
 
-/-- the accounting that makes all-answered imply all-complete -/
-def K1 (r : Run) (s : St) (G N B : Group) : Prop :=
-  NoErr s →
-    (s.sub.needs 1 ≤ 0 ∨ s.sub.needs 1 ≤ (uns r s G.logs : Int)) ∧
-    (s.sub.needs 2 ≤ 0 ∨ s.sub.needs 2 ≤ (uns r s N.logs : Int)) ∧
-    (s.sub.needs baseName ≤ 0 ∨ s.sub.needs baseName ≤ (uns r s B.logs : Int))
+/-- the accounting that makes all-answered imply all-complete: each group's need is at most the number of its logs
+outside `bad` that have not answered yet (as long as every error so far came from a `bad` log) -/
+def K1 (r : Run) (s : St) (bad : Log → Bool) (G N B : Group) : Prop :=
+  ErrIn bad s →
+    (s.sub.needs 1 ≤ 0 ∨ s.sub.needs 1 ≤ (uns r s bad G.logs : Int)) ∧
+    (s.sub.needs 2 ≤ 0 ∨ s.sub.needs 2 ≤ (uns r s bad N.logs : Int)) ∧
+    (s.sub.needs baseName ≤ 0 ∨ s.sub.needs baseName ≤ (uns r s bad B.logs : Int))
 
 theorem step_setResult_inv {r : Run} {s s' : St} {g : Grp} {l : Log} {ok : Bool}
     (hs : step r s (.setResult g l ok) = some s') :
@@ -211,16 +212,15 @@ theorem step_setResult_inv {r : Run} {s s' : St} {g : Grp} {l : Log} {ok : Bool}
   cases hs
   exact ⟨hinf, p, hp, rfl⟩
 
-theorem k1_init {r : Run} {G N B : Group} (wf : WF r) (sh : ChromeShape r G N B)
-    (hG : G.min ≤ G.logs.length) (hN : N.min ≤ N.logs.length) (hB : B.min ≤ B.logs.length) : K1 r (St.init r) G N B := by
+theorem uns_init (r : Run) (bad : Log → Bool) (L : List Log) :
+    uns r (St.init r) bad L = (L.filter (fun l => !bad l)).length := by
+  unfold uns
+  congr 1
+
+theorem k1_init {r : Run} {G N B : Group} (bad : Log → Bool) (wf : WF r) (sh : ChromeShape r G N B)
+    (hG : G.min ≤ (G.logs.filter (fun l => !bad l)).length) (hN : N.min ≤ (N.logs.filter (fun l => !bad l)).length)
+    (hB : B.min ≤ (B.logs.filter (fun l => !bad l)).length) : K1 r (St.init r) bad G N B := by
   intro _
-  have hu : ∀ L : List Log, uns r (St.init r) L = L.length := by
-    intro L
-    unfold uns
-    congr 1
-    rw [List.filter_eq_self]
-    intro l _
-    simp [answeredB, St.init]
   have hmem : G ∈ r.cfg ∧ N ∈ r.cfg ∧ B ∈ r.cfg := by simp [sh.cfg_eq]
   have n1 := init_needs wf.names_nodup hmem.1
   have n2 := init_needs wf.names_nodup hmem.2.1
@@ -229,35 +229,93 @@ theorem k1_init {r : Run} {G N B : Group} (wf : WF r) (sh : ChromeShape r G N B)
   rw [sh.nN] at n2
   rw [sh.nB] at n3
   refine ⟨Or.inr ?_, Or.inr ?_, Or.inr ?_⟩
-  · rw [hu]; show (Sub.init r.cfg).needs 1 ≤ _; rw [n1]; exact hG
-  · rw [hu]; show (Sub.init r.cfg).needs 2 ≤ _; rw [n2]; exact hN
-  · rw [hu]; show (Sub.init r.cfg).needs baseName ≤ _; rw [n3]; exact hB
+  · rw [uns_init]; show (Sub.init r.cfg).needs 1 ≤ _; rw [n1]; exact hG
+  · rw [uns_init]; show (Sub.init r.cfg).needs 2 ≤ _; rw [n2]; exact hN
+  · rw [uns_init]; show (Sub.init r.cfg).needs baseName ≤ _; rw [n3]; exact hB
 
-theorem k1_step {r : Run} {s s' : St} {G N B : Group} (wf : WF r) (sh : ChromeShape r G N B) (hi : Inv r s)
-    (hk : K1 r s G N B) (o : Op) (hs : step r s o = some s') : K1 r s' G N B := by
+/-- actions other than `setResult` change neither needs nor answers and add no error -/
+theorem step_other {r : Run} {s s' : St} (hi : Inv r s) (o : Op) (hs : step r s o = some s')
+    (hno : ∀ g l ok, o ≠ .setResult g l ok) :
+    s'.sub.needs = s.sub.needs ∧ (∀ l, s.sub.results l = some .err → s'.sub.results l = some .err) ∧
+    ∀ l, answeredB r s' l = answeredB r s l := by
+  have hans := answeredB_step hi o hs hno
+  have hsub : s'.sub.needs = s.sub.needs ∧ ∀ l, s.sub.results l = some .err → s'.sub.results l = some .err := by
+    cases o with
+    | setResult g l ok => exact absurd rfl (hno g l ok)
+    | request g l =>
+      simp only [step] at hs
+      split at hs
+      case isFalse => cases hs
+      have hr : ∀ l', s.sub.results l' = some .err → (request r.cfg s.sub l).1.results l' = some .err := by
+        intro l' he
+        rw [request_results]
+        split
+        · rename_i hc; rw [hc.1] at he; rw [hc.2] at he; cases he
+        · exact he
+      split at hs <;> cases hs <;> exact ⟨request_needs _ _ _, hr⟩
+    | timerFire g l =>
+      simp only [step] at hs
+      split at hs <;> cases hs
+      exact ⟨rfl, fun _ h => h⟩
+    | abort g l =>
+      simp only [step] at hs
+      split at hs <;> cases hs
+      exact ⟨rfl, fun _ h => h⟩
+    | groupDone g =>
+      simp only [step] at hs
+      split at hs <;> cases hs
+      exact ⟨rfl, fun _ h => h⟩
+    | recv g =>
+      simp only [step] at hs
+      split at hs
+      · split at hs <;> cases hs
+        exact ⟨rfl, fun _ h => h⟩
+      · cases hs
+    | ctxDone =>
+      simp only [step] at hs
+      split at hs <;> cases hs
+      exact ⟨rfl, fun _ h => h⟩
+    | collect =>
+      simp only [step] at hs
+      split at hs <;> cases hs
+      exact ⟨rfl, fun _ h => h⟩
+  exact ⟨hsub.1, hsub.2, hans⟩
+
+theorem k1_step {r : Run} {s s' : St} {G N B : Group} (bad : Log → Bool) (wf : WF r) (sh : ChromeShape r G N B)
+    (hi : Inv r s) (hk : K1 r s bad G N B) (o : Op) (hs : step r s o = some s') : K1 r s' bad G N B := by
   by_cases hsr : ∃ g l ok, o = .setResult g l ok
   · obtain ⟨g, l, ok, rfl⟩ := hsr
     obtain ⟨ha0, ha1, harest⟩ := answeredB_setResult hi g l ok hs
     obtain ⟨hinf, p, hp, hsub⟩ := step_setResult_inv hs
     have hempty := (hi.owner g l hinf).1
     intro hne'
+    have hdisj : uns r s bad G.logs + uns r s bad N.logs ≤ uns r s bad B.logs := by
+      unfold uns
+      exact filter_disjoint_le (fun l => !answeredB r s l && !bad l) sh.ndG sh.ndN sh.disj sh.subG sh.subN
     cases ok
-    · -- an error result: excluded by NoErr
-      exfalso
+    · -- an error result: the log is in `bad`; needs unchanged, good outstanding logs unchanged
       rw [setResult_err] at hp
       cases hp
-      exact hne' l (by rw [hsub]; simp [upd])
+      have hbl : bad l = true := hne' l (by rw [hsub]; simp [upd])
+      have hne : ErrIn bad s := by
+        intro l' herr
+        by_cases he : l' = l
+        · subst he; rw [hempty] at herr; cases herr
+        · exact hne' l' (by rw [hsub]; simp [upd, he]; exact herr)
+      have hu : ∀ L, uns r s' bad L = uns r s bad L := fun L => uns_other (Or.inl hbl) harest
+      have hn : s'.sub.needs = s.sub.needs := by rw [hsub]
+      rw [hn, hu, hu, hu]
+      exact hk hne
     · obtain ⟨p1, cs⟩ := p
       obtain ⟨h1, h2, h3, h4, h5⟩ := setResult_ok_spec hp
       have hsub1 : s'.sub = p1 := hsub
-      have hne : NoErr s := by
+      have hne : ErrIn bad s := by
         intro l' herr
         by_cases he : l' = l
         · subst he; rw [hempty] at herr; cases herr
         · exact hne' l' (by rw [hsub1, h3 l' he]; exact herr)
       obtain ⟨kG, kN, kB⟩ := hk hne
       obtain ⟨g1, g2, g0⟩ := chrome_groupsOf sh l
-      -- the log belongs to the base group
       have hlB : l ∈ B.logs := by
         obtain ⟨gn, hgn, hl⟩ := hi.sub_sess l (hi.infl_sub g l hinf)
         rw [chrome_names sh] at hgn
@@ -271,139 +329,134 @@ theorem k1_step {r : Run} {s s' : St} {G N B : Group} (wf : WF r) (sh : ChromeSh
       have e1 := setResult_ok_nonbase hp 1 (by decide)
       have e2 := setResult_ok_nonbase hp 2 (by decide)
       have hb0 := h1 baseName
-      have uB : uns r s B.logs = uns r s' B.logs + 1 :=
-        uns_answer sh.ndB hlB ha0 ha1 harest
-      have hdisj : uns r s G.logs + uns r s N.logs ≤ uns r s B.logs := by
+      -- how the outstanding good parts change: by one for the lists containing `l` when `l` is good, not at all otherwise
+      have hchg : ∀ L : List Log, L.Nodup → l ∈ L → ∃ d : Nat, d ≤ 1 ∧ (bad l = false → d = 1) ∧ (bad l = true → d = 0) ∧
+          uns r s bad L = uns r s' bad L + d := by
+        intro L hn hl
+        cases hb : bad l
+        · exact ⟨1, Nat.le_refl _, fun _ => rfl, (fun h => by cases h), uns_answer hn hl hb ha0 ha1 harest⟩
+        · exact ⟨0, by omega, (fun h => by cases h), fun _ => rfl, (by have := uns_other (r := r) (s := s) (s' := s') (bad := bad) (L := L) (l := l) (Or.inl hb) harest; omega)⟩
+      have hpos : ∀ L : List Log, l ∈ L → bad l = false → 1 ≤ uns r s bad L := by
+        intro L hl hb
         unfold uns
-        exact filter_disjoint_le (fun l => !answeredB r s l) sh.ndG sh.ndN sh.disj sh.subG sh.subN
+        exact pos_length_of_mem_filter hl (by simp [ha0, hb])
+      obtain ⟨dB, dB1, dBg, dBb, uB⟩ := hchg B.logs sh.ndB hlB
       rw [hsub1]
       rcases hcov with hlG | hlN
       · have hlN : l ∉ N.logs := sh.disj l hlG
-        have uG : uns r s G.logs = uns r s' G.logs + 1 :=
-          uns_answer sh.ndG hlG ha0 ha1 harest
-        have uN : uns r s' N.logs = uns r s N.logs :=
-          uns_congr _ (fun x hx => harest x (fun he => hlN (he ▸ hx)))
+        obtain ⟨dG, dG1, dGg, dGb, uG⟩ := hchg G.logs sh.ndG hlG
+        have uN : uns r s' bad N.logs = uns r s bad N.logs := uns_other (Or.inr hlN) harest
+        have pG := hpos G.logs hlG
         simp only [g1.mpr hlG, if_true] at e1
-        have : 2 ∉ groupsOf r.cfg l := fun h => hlN (g2.mp h)
-        simp only [this, if_false] at e2
-        refine ⟨by omega, by rw [uN, e2]; exact kN, ?_⟩
-        by_cases hkeep : p1.needs baseName = s.sub.needs baseName ∧ 0 < s.sub.needs baseName
-        · obtain ⟨hnb, hsum⟩ := setResult_ok_base_kept hp (g0.mpr hlB) hempty hkeep.1 hkeep.2
-          have hn1 : s.sub.needs 1 ≤ 0 := hnb 1 (mem_nonBase.mpr ⟨g1.mpr hlG, by decide⟩)
-          rw [chrome_sumOther sh] at hsum
-          have a1 : (afterNonBase r.cfg s.sub l).needs 1 = s.sub.needs 1 - 1 := by
-            show (if 1 ∈ nonBase r.cfg l then _ else _) = _
-            simp [mem_nonBase, g1.mpr hlG, (by decide : (1 : Grp) ≠ baseName)]
-          have a2 : (afterNonBase r.cfg s.sub l).needs 2 = s.sub.needs 2 := by
-            show (if 2 ∈ nonBase r.cfg l then _ else _) = _
-            simp [mem_nonBase, this]
-          rw [a1, a2] at hsum
-          right
-          split at hsum <;> split at hsum <;> omega
-        · omega
+        have h2n : 2 ∉ groupsOf r.cfg l := fun h => hlN (g2.mp h)
+        simp only [h2n, if_false] at e2
+        cases hb : bad l
+        · have q1 := dGg hb; have q2 := dBg hb; have q3 := pG hb
+          refine ⟨by omega, by rw [uN, e2]; exact kN, ?_⟩
+          by_cases hkeep : p1.needs baseName = s.sub.needs baseName ∧ 0 < s.sub.needs baseName
+          · obtain ⟨hnb, hsum⟩ := setResult_ok_base_kept hp (g0.mpr hlB) hempty hkeep.1 hkeep.2
+            have hn1 : s.sub.needs 1 ≤ 0 := hnb 1 (mem_nonBase.mpr ⟨g1.mpr hlG, by decide⟩)
+            rw [chrome_sumOther sh] at hsum
+            have a1 : (afterNonBase r.cfg s.sub l).needs 1 = s.sub.needs 1 - 1 := by
+              show (if 1 ∈ nonBase r.cfg l then _ else _) = _
+              simp [mem_nonBase, g1.mpr hlG, (by decide : (1 : Grp) ≠ baseName)]
+            have a2 : (afterNonBase r.cfg s.sub l).needs 2 = s.sub.needs 2 := by
+              show (if 2 ∈ nonBase r.cfg l then _ else _) = _
+              simp [mem_nonBase, h2n]
+            rw [a1, a2] at hsum
+            right
+            split at hsum <;> split at hsum <;> omega
+          · omega
+        · have q1 := dGb hb; have q2 := dBb hb
+          refine ⟨by omega, by rw [uN, e2]; exact kN, ?_⟩
+          by_cases hkeep : p1.needs baseName = s.sub.needs baseName ∧ 0 < s.sub.needs baseName
+          · obtain ⟨hnb, hsum⟩ := setResult_ok_base_kept hp (g0.mpr hlB) hempty hkeep.1 hkeep.2
+            have hn1 : s.sub.needs 1 ≤ 0 := hnb 1 (mem_nonBase.mpr ⟨g1.mpr hlG, by decide⟩)
+            rw [chrome_sumOther sh] at hsum
+            have a1 : (afterNonBase r.cfg s.sub l).needs 1 = s.sub.needs 1 - 1 := by
+              show (if 1 ∈ nonBase r.cfg l then _ else _) = _
+              simp [mem_nonBase, g1.mpr hlG, (by decide : (1 : Grp) ≠ baseName)]
+            have a2 : (afterNonBase r.cfg s.sub l).needs 2 = s.sub.needs 2 := by
+              show (if 2 ∈ nonBase r.cfg l then _ else _) = _
+              simp [mem_nonBase, h2n]
+            rw [a1, a2] at hsum
+            right
+            split at hsum <;> split at hsum <;> omega
+          · omega
       · have hlG : l ∉ G.logs := fun h => sh.disj l h hlN
-        have uN : uns r s N.logs = uns r s' N.logs + 1 :=
-          uns_answer sh.ndN hlN ha0 ha1 harest
-        have uG : uns r s' G.logs = uns r s G.logs :=
-          uns_congr _ (fun x hx => harest x (fun he => hlG (he ▸ hx)))
+        obtain ⟨dN, dN1, dNg, dNb, uN⟩ := hchg N.logs sh.ndN hlN
+        have uG : uns r s' bad G.logs = uns r s bad G.logs := uns_other (Or.inr hlG) harest
+        have pN := hpos N.logs hlN
         simp only [g2.mpr hlN, if_true] at e2
-        have : 1 ∉ groupsOf r.cfg l := fun h => hlG (g1.mp h)
-        simp only [this, if_false] at e1
-        refine ⟨by rw [uG, e1]; exact kG, by omega, ?_⟩
-        by_cases hkeep : p1.needs baseName = s.sub.needs baseName ∧ 0 < s.sub.needs baseName
-        · obtain ⟨hnb, hsum⟩ := setResult_ok_base_kept hp (g0.mpr hlB) hempty hkeep.1 hkeep.2
-          have hn2 : s.sub.needs 2 ≤ 0 := hnb 2 (mem_nonBase.mpr ⟨g2.mpr hlN, by decide⟩)
-          rw [chrome_sumOther sh] at hsum
-          have a2 : (afterNonBase r.cfg s.sub l).needs 2 = s.sub.needs 2 - 1 := by
-            show (if 2 ∈ nonBase r.cfg l then _ else _) = _
-            simp [mem_nonBase, g2.mpr hlN, (by decide : (2 : Grp) ≠ baseName)]
-          have a1 : (afterNonBase r.cfg s.sub l).needs 1 = s.sub.needs 1 := by
-            show (if 1 ∈ nonBase r.cfg l then _ else _) = _
-            simp [mem_nonBase, this]
-          rw [a1, a2] at hsum
-          right
-          split at hsum <;> split at hsum <;> omega
-        · omega
-  · -- every other action leaves needs and answers alone and adds no error
-    have hno : ∀ g l ok, o ≠ .setResult g l ok := fun g l ok he => hsr ⟨g, l, ok, he⟩
-    have hans := answeredB_step hi o hs hno
-    have hsub : s'.sub.needs = s.sub.needs ∧ ∀ l, s.sub.results l = some .err → s'.sub.results l = some .err := by
-      cases o with
-      | setResult g l ok => exact absurd rfl (hno g l ok)
-      | request g l =>
-        simp only [step] at hs
-        split at hs
-        case isFalse => cases hs
-        have hr : ∀ l', s.sub.results l' = some .err → (request r.cfg s.sub l).1.results l' = some .err := by
-          intro l' he
-          rw [request_results]
-          split
-          · rename_i hc; rw [hc.1] at he; rw [hc.2] at he; cases he
-          · exact he
-        split at hs <;> cases hs <;> exact ⟨request_needs _ _ _, hr⟩
-      | timerFire g l =>
-        simp only [step] at hs
-        split at hs <;> cases hs
-        exact ⟨rfl, fun _ h => h⟩
-      | abort g l =>
-        simp only [step] at hs
-        split at hs <;> cases hs
-        exact ⟨rfl, fun _ h => h⟩
-      | groupDone g =>
-        simp only [step] at hs
-        split at hs <;> cases hs
-        exact ⟨rfl, fun _ h => h⟩
-      | recv g =>
-        simp only [step] at hs
-        split at hs
-        · split at hs <;> cases hs
-          exact ⟨rfl, fun _ h => h⟩
-        · cases hs
-      | ctxDone =>
-        simp only [step] at hs
-        split at hs <;> cases hs
-        exact ⟨rfl, fun _ h => h⟩
-      | collect =>
-        simp only [step] at hs
-        split at hs <;> cases hs
-        exact ⟨rfl, fun _ h => h⟩
+        have h1n : 1 ∉ groupsOf r.cfg l := fun h => hlG (g1.mp h)
+        simp only [h1n, if_false] at e1
+        cases hb : bad l
+        · have q1 := dNg hb; have q2 := dBg hb; have q3 := pN hb
+          refine ⟨by rw [uG, e1]; exact kG, by omega, ?_⟩
+          by_cases hkeep : p1.needs baseName = s.sub.needs baseName ∧ 0 < s.sub.needs baseName
+          · obtain ⟨hnb, hsum⟩ := setResult_ok_base_kept hp (g0.mpr hlB) hempty hkeep.1 hkeep.2
+            have hn2 : s.sub.needs 2 ≤ 0 := hnb 2 (mem_nonBase.mpr ⟨g2.mpr hlN, by decide⟩)
+            rw [chrome_sumOther sh] at hsum
+            have a2 : (afterNonBase r.cfg s.sub l).needs 2 = s.sub.needs 2 - 1 := by
+              show (if 2 ∈ nonBase r.cfg l then _ else _) = _
+              simp [mem_nonBase, g2.mpr hlN, (by decide : (2 : Grp) ≠ baseName)]
+            have a1 : (afterNonBase r.cfg s.sub l).needs 1 = s.sub.needs 1 := by
+              show (if 1 ∈ nonBase r.cfg l then _ else _) = _
+              simp [mem_nonBase, h1n]
+            rw [a1, a2] at hsum
+            right
+            split at hsum <;> split at hsum <;> omega
+          · omega
+        · have q1 := dNb hb; have q2 := dBb hb
+          refine ⟨by rw [uG, e1]; exact kG, by omega, ?_⟩
+          by_cases hkeep : p1.needs baseName = s.sub.needs baseName ∧ 0 < s.sub.needs baseName
+          · obtain ⟨hnb, hsum⟩ := setResult_ok_base_kept hp (g0.mpr hlB) hempty hkeep.1 hkeep.2
+            have hn2 : s.sub.needs 2 ≤ 0 := hnb 2 (mem_nonBase.mpr ⟨g2.mpr hlN, by decide⟩)
+            rw [chrome_sumOther sh] at hsum
+            have a2 : (afterNonBase r.cfg s.sub l).needs 2 = s.sub.needs 2 - 1 := by
+              show (if 2 ∈ nonBase r.cfg l then _ else _) = _
+              simp [mem_nonBase, g2.mpr hlN, (by decide : (2 : Grp) ≠ baseName)]
+            have a1 : (afterNonBase r.cfg s.sub l).needs 1 = s.sub.needs 1 := by
+              show (if 1 ∈ nonBase r.cfg l then _ else _) = _
+              simp [mem_nonBase, h1n]
+            rw [a1, a2] at hsum
+            right
+            split at hsum <;> split at hsum <;> omega
+          · omega
+  · have hno : ∀ g l ok, o ≠ .setResult g l ok := fun g l ok he => hsr ⟨g, l, ok, he⟩
+    obtain ⟨hn, herr, hans⟩ := step_other hi o hs hno
     intro hne'
-    have hne : NoErr s := fun l he => hne' l (hsub.2 l he)
-    have hu : ∀ L, uns r s' L = uns r s L := fun L => uns_congr L (fun l _ => hans l)
-    rw [hsub.1, hu, hu, hu]
+    have hne : ErrIn bad s := fun l he => hne' l (herr l he)
+    have hu : ∀ L, uns r s' bad L = uns r s bad L := fun L => uns_congr L (fun l _ _ => hans l)
+    rw [hn, hu, hu, hu]
     exact hk hne
 
-theorem k1_exec {r : Run} {G N B : Group} (wf : WF r) (sh : ChromeShape r G N B) : ∀ (ops : List Op) {s : St},
-    Inv r s → Live r s → K1 r s G N B →
-    Inv r (exec r s ops) ∧ Live r (exec r s ops) ∧ K1 r (exec r s ops) G N B
+theorem k1_exec {r : Run} {G N B : Group} (bad : Log → Bool) (wf : WF r) (sh : ChromeShape r G N B) :
+    ∀ (ops : List Op) {s : St}, Inv r s → Live r s → K1 r s bad G N B →
+    Inv r (exec r s ops) ∧ Live r (exec r s ops) ∧ K1 r (exec r s ops) bad G N B
   | [], _, hi, hl, hk => ⟨hi, hl, hk⟩
   | o :: os, s, hi, hl, hk => by
     unfold exec
     cases hs : step r s o with
-    | none => simpa using k1_exec wf sh os hi hl hk
-    | some s' => simpa using k1_exec wf sh os (inv_step wf hi o hs) (live_step hi hl o hs) (k1_step wf sh hi hk o hs)
+    | none => simpa using k1_exec bad wf sh os hi hl hk
+    | some s' => simpa using k1_exec bad wf sh os (inv_step wf hi o hs) (live_step hi hl o hs) (k1_step bad wf sh hi hk o hs)
 
-/-- **Every group is complete once every request has completed successfully** (Chrome-shaped groups, no
-cancellation, every member of a group in its session, minima not above the group sizes). -/
-theorem chrome_all_complete {r : Run} {G N B : Group} (wf : WF r) (sh : ChromeShape r G N B)
-    (hsess : ∀ g ∈ r.cfg, ∀ l ∈ g.logs, l ∈ r.session g.name)
-    (hG : G.min ≤ G.logs.length) (hN : N.min ≤ N.logs.length) (hB : B.min ≤ B.logs.length)
-    (ops : List Op)
-    (hctx : (exec r (St.init r) ops).ctx = false) (hne : NoErr (exec r (St.init r) ops))
-    (hfin : ∀ g ∈ names r.cfg, ∀ l ∈ r.session g, (exec r (St.init r) ops).gor g l = .finished) :
-    ∀ g ∈ r.cfg, (exec r (St.init r) ops).sub.needs g.name ≤ 0 := by
-  obtain ⟨hi, hl, hk⟩ := k1_exec wf sh ops (inv_init wf) (live_init r) (k1_init wf sh hG hN hB)
-  generalize exec r (St.init r) ops = s at *
-  obtain ⟨kG, kN, kB⟩ := hk hne
-  -- a group that is still waiting has had every one of its logs answered
-  have key : ∀ X ∈ r.cfg, 0 < s.sub.needs X.name → uns r s X.logs = 0 := by
-    intro X hX hpos
-    unfold uns
-    rw [List.length_eq_zero_iff, List.filter_eq_nil_iff]
-    intro l hlX
-    have hXn : X.name ∈ names r.cfg := List.mem_map_of_mem (f := (·.name)) hX
+/-- a group that is still waiting has had every one of its logs outside `bad` answered, once every goroutine has
+finished or is stuck in a request to a `bad` log -/
+theorem waiting_group_all_answered {r : Run} {s : St} (bad : Log → Bool) (hi : Inv r s) (hl : Live r s)
+    (hsess : ∀ g ∈ r.cfg, ∀ l ∈ g.logs, l ∈ r.session g.name) (hctx : s.ctx = false)
+    (hfin : ∀ g ∈ names r.cfg, ∀ l ∈ r.session g, s.gor g l = .finished ∨ (s.gor g l = .inflight ∧ bad l = true))
+    (X : Group) (hX : X ∈ r.cfg) (hpos : 0 < s.sub.needs X.name) : uns r s bad X.logs = 0 := by
+  unfold uns
+  rw [List.length_eq_zero_iff, List.filter_eq_nil_iff]
+  intro l hlX
+  cases hb : bad l
+  · have hXn : X.name ∈ names r.cfg := List.mem_map_of_mem (f := (·.name)) hX
     have hls := hsess X hX l hlX
-    have hf := hfin X.name hXn l hls
+    have hf : s.gor X.name l = .finished := by
+      rcases hfin X.name hXn l hls with h | h
+      · exact h
+      · rw [hb] at h; cases h.2
     have hres := hl.k2 hctx X hX l hls hf hpos
     have hgl : X.name ∈ groupsOf r.cfg l := by
       simp only [groupsOf, List.mem_map, List.mem_filter, decide_eq_true_eq]
@@ -419,10 +472,27 @@ theorem chrome_all_complete {r : Run} {G N B : Group} (wf : WF r) (sh : ChromeSh
       rw [answeredB_iff]
       refine ⟨hsub, fun g' hg' hin => ?_⟩
       have hact := hi.active g' l (by rw [hin]; simp)
-      have := hfin g' hg' l hact.2
-      rw [hin] at this
-      cases this
+      rcases hfin g' hg' l hact.2 with h | h
+      · rw [hin] at h; cases h
+      · rw [hb] at h; cases h.2
     simp [this]
+  · simp
+
+/-- **Every group is complete once every request to a log outside `bad` has completed** (Chrome-shaped groups, no
+cancellation, every member of a group in its session, every group keeps at least its minimum outside `bad`). -/
+theorem chrome_all_complete {r : Run} {G N B : Group} (bad : Log → Bool) (wf : WF r) (sh : ChromeShape r G N B)
+    (hsess : ∀ g ∈ r.cfg, ∀ l ∈ g.logs, l ∈ r.session g.name)
+    (hG : G.min ≤ (G.logs.filter (fun l => !bad l)).length) (hN : N.min ≤ (N.logs.filter (fun l => !bad l)).length)
+    (hB : B.min ≤ (B.logs.filter (fun l => !bad l)).length)
+    (ops : List Op)
+    (hctx : (exec r (St.init r) ops).ctx = false) (hne : ErrIn bad (exec r (St.init r) ops))
+    (hfin : ∀ g ∈ names r.cfg, ∀ l ∈ r.session g, (exec r (St.init r) ops).gor g l = .finished ∨
+      ((exec r (St.init r) ops).gor g l = .inflight ∧ bad l = true)) :
+    ∀ g ∈ r.cfg, (exec r (St.init r) ops).sub.needs g.name ≤ 0 := by
+  obtain ⟨hi, hl, hk⟩ := k1_exec bad wf sh ops (inv_init wf) (live_init r) (k1_init bad wf sh hG hN hB)
+  generalize exec r (St.init r) ops = s at *
+  obtain ⟨kG, kN, kB⟩ := hk hne
+  have key := waiting_group_all_answered bad hi hl hsess hctx hfin
   have hmem : G ∈ r.cfg ∧ N ∈ r.cfg ∧ B ∈ r.cfg := by simp [sh.cfg_eq]
   intro g hg
   rw [sh.cfg_eq] at hg
